@@ -6,9 +6,9 @@ from harness import compart
 class H(Harness):
     ID = 'C07'
     ANCHOR_FILES = ['epydemic/compartmentedmodel.py', 'epydemic/sir_model.py', 'epydemic/sis_model.py', 'epydemic/sirs_model.py', 'epydemic/seir_model.py', 'epydemic/sir_model_fixed_recovery.py', 'epydemic/sis_model_fixed_recovery.py', 'epydemic/sir_model_variable_infection.py', 'epydemic/sivr_model.py', 'epydemic/opinion_model.py', 'epydemic/vaccinate_model.py']
-    TIE_IMPORT = 'From EpyV Require Import Model.Kernel Model.Loci Model.Compart Model.CompartV Tie.Compart Tie.CompartV.\nOpen Scope Q_scope.'
-    CHECK_FN = 'EpyV.Tie.CompartV.check_any_nomarks'      # occupied edges / hitting times are C08's business
-    VO_TARGETS = ['Properties/C07.vo', 'Tie/CompartV.vo']
+    TIE_IMPORT = 'From EpyV Require Import Model.Kernel Model.KernelDyn Model.Loci Model.Compart Model.CompartV Model.CompartVI Tie.Compart Tie.CompartV Tie.CompartVI Tie.CompartAll.\nOpen Scope Q_scope.'
+    CHECK_FN = 'EpyV.Tie.CompartAll.check_all_nomarks'      # occupied edges / hitting times are C08's business
+    VO_TARGETS = ['Properties/C07.vo', 'Tie/CompartAll.vo']
     QUICK_N = 400
     THOROUGH_N = 4000
     RULE = ('whole runs of every shipped compartmented model (SIR, SIS, SIRS, SEIR, SIR/SIS_FixedRecovery, SIR_VariableInfection, SIvR with '
@@ -33,7 +33,7 @@ class H(Harness):
             from harness import compart_coq
         except ImportError:
             return None
-        return compart_coq.to_coq_any(case, obs)
+        return compart_coq.to_coq_all(case, obs)
 
     def extra_obligations(self, workdir, tier):
         # tie A: the event functions are re-translated from /repo's source and their summaries re-checked by Coq
